@@ -5,6 +5,9 @@
 #ifdef MSIM_SERIALIZATION
 #include "ser_ops.hpp"
 #endif
+#ifdef MSIM_MPI
+#include "mpi_ops.hpp"
+#endif
 
 namespace sim {
 
@@ -21,6 +24,7 @@ template<class Cfg> ModelTraits backend_traits() {
 	T.trivial       = ET::trivial;
 	T.serialization = Cfg::serialization;
 		T.tracked       = ET::tracked;
+		T.mpi           = Cfg::mpi;
 	T.pocca         = Cfg::pocca;
 	T.pocma         = Cfg::pocma;
 	T.pocs          = Cfg::pocs;
@@ -34,7 +38,7 @@ template<class Cfg> ModelTraits backend_traits() {
 }
 
 // generic configuration over sim::allocator
-template<class Elem, class AC, int DMin, int DMax, bool Static = false, bool Ser = false>
+template<class Elem, class AC, int DMin, int DMax, bool Static = false, bool Ser = false, bool Mpi = false>
 struct SimCfg {
 	using elem  = Elem;
 	using alloc = sim::allocator<Elem, AC>;
@@ -43,6 +47,7 @@ struct SimCfg {
 	static constexpr int  dmin = DMin, dmax = DMax;
 	static constexpr bool static_arrays = Static;
 	static constexpr bool serialization = Ser;
+	static constexpr bool mpi = Mpi;
 	static auto make_alloc(int arena) -> alloc { return alloc{arena}; }
 	static int  arena_of(alloc const& a) { return a.arena; }
 	static void setup() {}
